@@ -2,6 +2,7 @@ package c18
 
 import (
 	"fmt"
+	"os"
 	"sort"
 	"strings"
 
@@ -115,6 +116,10 @@ func ioAttr(e ioElem, interp bool) string {
 
 func genProgram(t *rapid.T) testCase {
 	g := &gen{t: t, feat: map[string]bool{}}
+	g.avoidFatal = os.Getenv("VERIF_NO_EXCLUDE") == ""
+	if g.avoidFatal {
+		ev.Class("excluded:dxil-selfref-store-overflow(built-in)")
+	}
 	g.stage = []string{"compute", "vertex", "fragment"}[g.n(0, 2)]
 	size := g.n(0, 99)
 	stmts := 0
@@ -135,8 +140,11 @@ func genProgram(t *rapid.T) testCase {
 	g.bigLits = g.chance(60)
 	g.allowAtomics = g.chance(25) && !ev.Excluded("dxil-atomics")
 	g.allowDiscard = g.chance(30)
-	g.noNestedStructs = ev.Excluded("dxil-nested-struct-gep")
-	g.noHandleVecStore = ev.Excluded("dxil-handle-store")
+	g.av = map[string]bool{}
+	for _, tag := range []string{"dxil-buffer-access-chain", "dxil-private-vector", "dxil-local-matrix-var",
+		"dxil-bool-shortcircuit-in-loop", "dxil-not-vec-bool", "dxil-numwg-unused"} {
+		g.av[tag] = ev.Excluded(tag)
+	}
 	g.push() // module scope
 
 	// ---- resources
@@ -187,9 +195,6 @@ func genProgram(t *rapid.T) testCase {
 			g.use("runtime-array")
 		default:
 			ty = arr(g.valueType(false, true), g.n(1, 8))
-			if ty.elem.k == tMat && ty.elem.r == 2 && ev.Excluded("dxil-mat-cx2-buffer") {
-				ty.elem = mat(ty.elem.n, 4)
-			}
 		}
 		as := map[string]string{"uniform": "uniform", "storage_read": "storage, read", "storage_rw": "storage, read_write"}[cls]
 		fmt.Fprintf(&decls, "@group(%d) @binding(%d) var<%s> %s: %s;\n", gb[0], gb[1], as, name, ty)
@@ -211,6 +216,9 @@ func genProgram(t *rapid.T) testCase {
 	}
 	for i := g.n(0, 2); i > 0; i-- {
 		t := g.valueType(true, true)
+		if g.av["dxil-private-vector"] {
+			t = scalar(t.s)
+		}
 		n := g.fresh("pv")
 		if g.chance(50) {
 			fmt.Fprintf(&g.sb, "var<private> %s: %s = %s;\n", n, t, g.literal(t, false))
@@ -360,7 +368,7 @@ func genProgram(t *rapid.T) testCase {
 				nout = g.n(4, 14)
 			}
 		} else if nout == 0 || g.chance(15) {
-			if g.chance(50) && !ev.Excluded("dxil-frag-depth") {
+			if g.chance(50) {
 				outs = append(outs, ioElem{Builtin: "frag_depth", Comps: 1, Scalar: "f32", name: "depth", ty: scalar(kF32)})
 			} else if nout == 0 {
 				nout = 1
@@ -395,7 +403,11 @@ func genProgram(t *rapid.T) testCase {
 		direct := len(outs) == 1 && g.chance(60)
 		if direct {
 			fmt.Fprintf(&w, "%s\nfn %s(%s) -> %s %s {\n", attr, entry, strings.Join(params, ", "), ioAttr(outs[0], vertex), outs[0].ty)
-			fmt.Fprintf(&w, "  var out_: %s;\n", outs[0].ty)
+			if g.avoidFatal {
+				fmt.Fprintf(&w, "  var out_: %s = %s;\n", outs[0].ty, g.literal(outs[0].ty, true))
+			} else {
+				fmt.Fprintf(&w, "  var out_: %s;\n", outs[0].ty)
+			}
 			g.declare(scopeVar{name: "out_", ty: outs[0].ty, mutable: true})
 		} else {
 			fmt.Fprintf(&g.sb, "struct Out_ {\n")
@@ -405,6 +417,11 @@ func genProgram(t *rapid.T) testCase {
 			g.sb.WriteString("}\n")
 			fmt.Fprintf(&w, "%s\nfn %s(%s) -> Out_ {\n", attr, entry, strings.Join(params, ", "))
 			w.WriteString("  var out_: Out_;\n")
+			if g.avoidFatal {
+				for _, e := range outs {
+					fmt.Fprintf(&w, "  out_.%s = %s;\n", e.name, g.literal(e.ty, true))
+				}
+			}
 			for _, e := range outs {
 				n, ty := "out_."+e.name, e.ty
 				g.places = append(g.places, place{expr: func(*gen) string { return n }, ty: ty, writable: true, res: -1})
@@ -415,7 +432,7 @@ func genProgram(t *rapid.T) testCase {
 		_ = outName
 	}
 	g.preamble(&w, seed)
-	if ifc.NumWorkgroups && ev.Excluded("dxil-numwg-unused") {
+	if ifc.NumWorkgroups && g.av["dxil-numwg-unused"] {
 		// keep the builtin used (known finding: PSV0 declares its buffer even when unused)
 		w.WriteString("  acc = acc ^ nwg.x;\n")
 	}
@@ -436,7 +453,8 @@ func genProgram(t *rapid.T) testCase {
 			continue
 		}
 		p := ps[g.n(0, len(ps)-1)]
-		fmt.Fprintf(&w, "  acc = acc ^ %s;\n", toU32(p.expr(g), p.ty))
+		sn := g.fresh("s")
+		fmt.Fprintf(&w, "  let %s: %s = %s;\n  acc = acc ^ %s;\n", sn, p.ty, p.expr(g), toU32(sn, p.ty))
 	}
 	switch g.stage {
 	case "compute":
